@@ -28,8 +28,21 @@ def main():
         out = getattr(mod, fn)(payload)
     except TimeoutError:
         out = {"status": "timeout", "detail": "adapter exceeded its time budget (inconclusive, machine load?)"}
-    except Exception:
-        out = {"status": "error", "detail": traceback.format_exc()[-3000:]}
+    except Exception as e:
+        # An exception that escapes from the code under test (a frame in agilerl/ below the adapter's own frame) on an input
+        # the adapter passes on the unchanged tree is a failing input: the function raised where its contract promises a
+        # result.  Exceptions raised by the adapter itself stay adapter errors.
+        frames = traceback.extract_tb(e.__traceback__)
+        names = [f.filename for f in frames]
+        last_adapter = max([i for i, n in enumerate(names) if "/replays/" in n], default=-1)
+        in_repo = [i for i, n in enumerate(names) if "/agilerl/" in n and i > last_adapter]
+        if in_repo and not isinstance(e, (ImportError, SyntaxError, MemoryError)):
+            where = frames[in_repo[-1]]
+            out = {"status": "fail", "witness_key": "exception-in-code-under-test",
+                   "detail": f"{type(e).__name__}: {e} raised at {where.filename.split('/agilerl/')[-1]}:{where.lineno} ({where.name}) on an input of the adapter's "
+                             f"search space; traceback tail: {traceback.format_exc()[-1200:]}"}
+        else:
+            out = {"status": "error", "detail": traceback.format_exc()[-3000:]}
     print(json.dumps(out, default=str))
 
 
